@@ -39,6 +39,33 @@ CHECKS = {
         technique="TLC invariants on dumped/recorded states + exhaustive string enumeration by TLC replayed into the code",
         note=TABLE_NOTE + " The rule 'office applications accept' is taken to be the rule the library documents.",
     ),
+    "C08": dict(
+        text="GetterTrace.tla specifies, for each of the 16 getters, the sequence of handles (coordinates + content) it must return from the "
+        "abstract table state; recorded events carry what the real getter returned, the repeat attributes of the returned objects, whether "
+        "the getter changed the table, and what happened to the table and to sibling objects when up to 6 returned objects were mutated. TLC "
+        "gives each event a total verdict (addressed / expanded / detached / detached-cross / getter-changed-table).",
+        ref="DESIGN.md section 4 C08",
+        technique="TLC trace validation of recorded getter events against a TLA+ specification of each getter",
+        note=TABLE_NOTE + " The 'no repeat count' clause is claimed for the expanding getters only.",
+    ),
+    "C17": dict(
+        text="Transpose and rstrip are exact functions, optimize_width a relation (+ idempotence), CSV a value equality in Grid.tla; the "
+        "algebraic laws are invariants checked exhaustively by TLC on GridMC.tla and Span.tla (set_span/del_span: inverse pair, covers exactly the "
+        "area, refuses overlap, values kept unless merge, no orphan covered cell). Dumped transitions of both models are replayed on real tables in "
+        "3 encodings; transformation-heavy random histories and odfdo-table-shrink runs are validated by TLC.",
+        ref="DESIGN.md section 4 C17",
+        technique="TLC exhaustive law checking + transition replay (MBT) + TLC trace validation",
+        note=TABLE_NOTE + " Involution is on the populated matrix; set_span on areas leaving the table is unspecified.",
+    ),
+    "C19": dict(
+        text="Coord.tla: the coded base-26 conversions are checked by TLC against the short-lex successor characterisation for 0..20000 and the "
+        "table is replayed both ways into the code; the named-range address writer/parser pair is specified and its round trip checked over all "
+        "names up to the bound, each name replayed (write, serialise, parse, and code-parser on the spec-written ODF address, table rename). "
+        "CoordTrace.tla: 9 read methods x up to 5 coordinate forms, every answer compared by TLC with the answer for the abstract area.",
+        ref="DESIGN.md section 4 C19",
+        technique="TLC-enumerated tables replayed into the code + TLC trace validation of reads under every coordinate form",
+        note=TABLE_NOTE,
+    ),
 }
 
 NOT_YET = "check under construction in this session (no claim yet)"
